@@ -402,6 +402,14 @@ func (c *Compiler) compileAssignStatement(stmt *ast.AssignStatement) error {
 		return &SemanticError{Message: fmt.Sprintf("cannot redeclare variable '%s' in the same scope", stmt.Target)}
 	}
 
+	// `$ obj.field = value` assigns to a field of an object. The VM has no
+	// instruction for that: storing under the dotted name would create a
+	// variable called "obj.field" and leave the object untouched, silently.
+	// Refusing it makes the server run the program on the interpreter.
+	if strings.Contains(stmt.Target, ".") {
+		return fmt.Errorf("field assignment '%s' is not available in compiled mode", stmt.Target)
+	}
+
 	// Compile the value expression
 	if err := c.compileExpression(stmt.Value); err != nil {
 		return err
